@@ -8,7 +8,7 @@ from ..refs import alarms as R6
 ID = "C14"
 RULE = ("VEVENT/VTODO scenarios: start in {date, floating, UTC, zoned within +-2 days of a DST transition in Europe/Berlin, America/New_York, "
         "Australia/Lord_Howe, none}; end in {DTEND/DUE, DURATION, none}; 0-4 alarms with relative triggers (+-days, h/m/s, mixed, zero), RELATED "
-        "START/END/absent, absolute UTC/zoned triggers, REPEAT -1..5 x DURATION present/absent, TRIGGER absent; built through the API, parsed from text "
+        "START/END/absent (in parsed text also in lower and mixed case), absolute UTC/zoned triggers, REPEAT -1..5 x DURATION present/absent, TRIGGER absent; built through the API, parsed from text "
         "written by an independent emitter, or fed to Alarms() directly (add_alarm/set_start/set_end); both providers; plus an exhaustive sweep of one "
         "alarm over trigger x related x repeat x duration x start kind; non-trivial = at least one alarm with a trigger; distinct by case hash")
 ASSUMPTIONS = ["zoned arithmetic is Python's own for that tzinfo (wall clock for zoneinfo, normalised elapsed time for pytz) (S9)",
@@ -124,7 +124,8 @@ def emit(comp, start, endspec, alarms):
         if trig is not None:
             extra = {}
             if related:
-                extra["RELATED"] = related
+                # (an unquoted parameter value is case-insensitive, RFC 5545 section 2: other producers write related=start)
+                extra["RELATED"] = (related, related.lower(), related.capitalize())[len(lines) % 3]
             if trig[0] == "dt":
                 extra["VALUE"] = "DATE-TIME"
             lines.append(emit_line("TRIGGER", trig, extra))
